@@ -17,19 +17,23 @@ theorem core_effectC {nodes : Array ParseNode} {ug p : Option Nat} {base : Nat} 
       (∀ j, j < nodes.size → (nodes'[j]?).map (·.definition) = (nodes[j]?).map (·.definition)) ∧
       (∀ j, j < base → (nodes'[j]?).map (setRight none) = (nodes[j]?).map (setRight none)) ∧
       (∀ j, j + 1 < base → nodes'[j]? = nodes[j]?) ∧
-      (∀ (arr : Array ParseNode) (sub : Tree) (ko : Nat), (∀ j, j < nodes.size → arr[j]? = nodes'[j]?) →
-        (∃ on, arr[nodes.size]? = some on ∧ on.parent = info.parent ∧ on.left = info.left ∧ on.right = right ∧
+      (∀ (arr : Array ParseNode) (sub : Tree) (ko : Nat) {rlink : Option Nat}, (∀ j, j < nodes.size → arr[j]? = nodes'[j]?) →
+        (∃ on, arr[nodes.size]? = some on ∧ on.parent = info.parent ∧ on.left = info.left ∧ on.right = rlink ∧
           tokPos on = ko) →
-        IsTreeAt arr (some nodes.size) right sub →
-        ∃ re', FrameTree arr p re' (insertC cb (prioAt nodes) q rtl nodes.size ko sub E)) := by
+        IsTreeAt arr (some nodes.size) rlink sub →
+        ∃ re', FrameTree arr p re' (insertC cb (prioAt nodes) q rtl nodes.size ko sub E)) ∧
+      ((∀ g, p = some g → info.parent.isSome = true) ∧ ∀ P, info.parent = some P →
+        ∃ l, info.left = some l ∧ l < nodes.size ∧ P < nodes.size ∧ l ≠ P ∧
+          ∀ j, (if j = P then (nodes'[j]?).map (setRight (some l))
+                else if j = l then (nodes'[j]?).map (setParent (some P)) else nodes'[j]?) = nodes[j]?) := by
   have hmemE := hinv.mem
-  obtain ⟨htree, hin, hpos, hframe, hprios⟩ := hinv
+  obtain ⟨htree, hin, hfirst, hpos, hframe, hprios⟩ := hinv
   have hhead : (rspineUpC cb E).head? = some cb := rspineUpC_head cb E hsp
   have hlen : (rspineUpC cb E).length + base ≤ nodes.size := by
-    have := rspineUpC_length cb E; rw [hin] at this; simp at this; omega
-  have hnd : E.inorder.Nodup := by rw [hin]; exact List.nodup_range' ..
-  have hlt_of_mem : ∀ j, j ∈ E.inorder → j < nodes.size := fun j hj => ((hmemE j).mp hj).2
-  have hge_of_mem : ∀ j, j ∈ E.inorder → base ≤ j := fun j hj => ((hmemE j).mp hj).1
+    have := rspineUpC_length cb E; have := hin.length_le' (by omega); omega
+  have hnd : E.inorder.Nodup := hin.nodup
+  have hlt_of_mem : ∀ j, j ∈ E.inorder → j < nodes.size := fun j hj => (hmemE j hj).2
+  have hge_of_mem : ∀ j, j ∈ E.inorder → base ≤ j := fun j hj => (hmemE j hj).1
   -- the walk
   have hwalk : walkLoop nodes q ug rtl (nodes.size + 1) 0 (some cb) (some cb) =
       .ok ((walkSpec nodes q rtl (some cb) (rspineUpC cb E)).1,
@@ -97,7 +101,13 @@ theorem core_effectC {nodes : Array ParseNode} {ug p : Option Nat} {base : Nat} 
       intro j hj
       rw [hg j, if_neg (fun (e : j = tlv) => hj (e ▸ m1)), if_neg (fun (e : j = x) => hj (e ▸ m2))]
     obtain ⟨ho1, ho2⟩ := houter_same nodes' hsame
-    refine ⟨nodes', info, h, by rw [hinfo], ?_, ho1, ho2, ?_⟩
+    refine ⟨nodes', info, h, by rw [hinfo], ?_, ho1, ho2, ?_, ?_⟩
+    rotate_left 2
+    · refine ⟨fun _ _ => (by rw [hinfo]; rfl), ?_⟩
+      intro P hP
+      rw [hinfo] at hP; injection hP with hP; subst hP
+      obtain ⟨nt, hnt, hntp⟩ := htree.right_child_parent m2 hx hxr
+      exact ⟨tlv, by rw [hinfo], hlt_of_mem tlv m1, hlt_of_mem _ m2, ne, undo_stop ne hx hxr hnt hntp hg⟩
     · intro j _
       rw [hg j]
       split
@@ -105,8 +115,8 @@ theorem core_effectC {nodes : Array ParseNode} {ug p : Option Nat} {base : Nat} 
       · split
         · exact map_def_setRight _ _
         · rfl
-    · intro arr sub ko hlt hon hsub
-      obtain ⟨hS, _⟩ := walk_insertC nodes q rtl nodes.size ko sub right cb hns htree re rfl hnd hsp
+    · intro arr sub ko rlink hlt hon hsub
+      obtain ⟨hS, _⟩ := walk_insertC nodes q rtl nodes.size ko sub rlink cb hns htree re rfl hnd hsp
         (some cb)
       obtain ⟨tlv', t', nx', e1', _, _, _, _, _, habs, harr⟩ := hS (some tlv) x hw
       injection e1' with e1'; subst e1'
@@ -135,20 +145,22 @@ theorem core_effectC {nodes : Array ParseNode} {ug p : Option Nat} {base : Nat} 
       have hsame : ∀ j, j ∉ E.inorder → nodes'[j]? = nodes[j]? := by
         intro j hj; rw [hg j, if_neg (fun (e : j = re) => hj (e ▸ htree.root_mem))]
       obtain ⟨ho1, ho2⟩ := houter_same nodes' hsame
-      refine ⟨nodes', info, h, by rw [hinfo], ?_, ho1, ho2, ?_⟩
+      refine ⟨nodes', info, h, by rw [hinfo], ?_, ho1, ho2, ?_, ?_⟩
+      rotate_left 2
+      · exact ⟨fun g hg => (by cases hg), fun P hP => (by rw [hinfo] at hP; cases hP)⟩
       · intro j _
         rw [hg j]
         split
         · exact map_def_setParent _ _
         · rfl
-      · intro arr sub ko hlt hon hsub
-        obtain ⟨_, hN⟩ := walk_insertC nodes q rtl nodes.size ko sub right cb hns htree re rfl hnd hsp
+      · intro arr sub ko rlink hlt hon hsub
+        obtain ⟨_, hN⟩ := walk_insertC nodes q rtl nodes.size ko sub rlink cb hns htree re rfl hnd hsp
           (some cb)
         obtain ⟨_, habs, harr⟩ := hN (some re) hw
         refine ⟨nodes.size, ?_, fun g hg => by cases hg⟩
         unfold insertC; rw [habs]
         obtain ⟨on, o1, o2, o3, o4, o5⟩ := hon
-        apply newOpS_isTreeAt (llink := some re) (rlink := right)
+        apply newOpS_isTreeAt (llink := some re) (rlink := rlink)
         · exact ⟨⟨on, o1, by rw [o2, hinfo], by rw [o3, hinfo], o4, o5⟩, hsub⟩
         · apply harr arr
           · intro j hj h1
@@ -163,7 +175,15 @@ theorem core_effectC {nodes : Array ParseNode} {ug p : Option Nat} {base : Nat} 
       have hne : re ≠ g := fun e => hgE (e ▸ htree.root_mem)
       obtain ⟨nodes', info, h⟩ := parseToken_stop_ok (id := nodes.size) (right := right) hq hwalk hne hG hGr hre
       obtain ⟨hinfo, hg⟩ := parseToken_stop hq hwalk hne hG hGr h
-      refine ⟨nodes', info, h, by rw [hinfo], ?_, ?_, ?_, ?_⟩
+      refine ⟨nodes', info, h, by rw [hinfo], ?_, ?_, ?_, ?_, ?_⟩
+      rotate_left 4
+      · refine ⟨fun _ _ => (by rw [hinfo]; rfl), ?_⟩
+        intro P hP
+        rw [hinfo] at hP; injection hP with hP; subst hP
+        obtain ⟨nt, hnt, hntp⟩ : ∃ nt, nodes[re]? = some nt ∧ nt.parent = some g := by
+          cases htree with
+          | node _ _ nd _ _ h1 h2 _ _ => exact ⟨nd, h1, h2⟩
+        exact ⟨re, by rw [hinfo], hre, hgs, hne, undo_stop hne hG hGr hnt hntp hg⟩
       · intro j _
         rw [hg j]
         split
@@ -181,8 +201,8 @@ theorem core_effectC {nodes : Array ParseNode} {ug p : Option Nat} {base : Nat} 
       · intro j hj
         rw [hg j, if_neg (fun e => by have := hge_of_mem re htree.root_mem; omega),
           if_neg (fun e => by have := (hgfacts g rfl).1; omega)]
-      · intro arr sub ko hlt hon hsub
-        obtain ⟨_, hN⟩ := walk_insertC nodes q rtl nodes.size ko sub right cb hns htree re rfl hnd hsp
+      · intro arr sub ko rlink hlt hon hsub
+        obtain ⟨_, hN⟩ := walk_insertC nodes q rtl nodes.size ko sub rlink cb hns htree re rfl hnd hsp
           (some cb)
         obtain ⟨_, habs, harr⟩ := hN (some re) hw
         have hGarr : arr[g]? = some (setRight (some nodes.size) G) := by
@@ -190,7 +210,7 @@ theorem core_effectC {nodes : Array ParseNode} {ug p : Option Nat} {base : Nat} 
         refine ⟨nodes.size, ?_, ?_⟩
         · unfold insertC; rw [habs]
           obtain ⟨on, o1, o2, o3, o4, o5⟩ := hon
-          apply newOpS_isTreeAt (llink := some re) (rlink := right)
+          apply newOpS_isTreeAt (llink := some re) (rlink := rlink)
           · exact ⟨⟨on, o1, by rw [o2, hinfo], by rw [o3, hinfo], o4, o5⟩, hsub⟩
           · apply harr arr
             · intro j hj h1
